@@ -299,7 +299,7 @@ def main():
             chk.violation(b["sig"], b["msg"], b)
     cfgs = [rigp.Cfg("v2c", client="sync"), rigp.Cfg("v2c", client="async"), rigp.Cfg("v1", client="sync"), rigp.Cfg("v1", client="async"),
             rigp.Cfg("v3", auth="sha1", client="sync"), rigp.Cfg("v3", auth="md5", priv="aes", client="async")]
-    sj = [{"seed": a.seed * 7 + i, "cfg": c.to_json(), "rps": [rng_rps for rng_rps in ([10, 1000, 7.5] if q else [1, 3, 7.5, 10, 1000, 123456.7])],
+    sj = [{"seed": a.seed * 7 + i, "cfg": c.to_json(), "rps": [rng_rps for rng_rps in ([10, 1000, 7.5, 0.75] if q else [1, 3, 7.5, 10, 1000, 123456.7, 0.75, 0.5, 0.1])],
            "n": 60 if q else 600} for i, c in enumerate(cfgs)]
     outs = runner.run_workers("checks.c19", "session_worker", sj, variant="rel", timeout=3000)
     st["session_requests"] = 0
